@@ -159,6 +159,19 @@ Theorem fanbeam_circles : forall (g : fan) (a : R * R),
 Proof. exact fan_circles. Qed.
 Print Assumptions fanbeam_circles.
 
+(* cone beam without shift functions: the same about the point  translation + along * axis  of the
+   rotation axis (along = offset + pitch * angle / 2 pi), for every unit axis and unit src_to_det_init *)
+Theorem conebeam_circles : forall (g : cone) (a : R * R) (ang twopi : R),
+  dot3 (c_axis g) (c_axis g) = 1 -> dot3 (c_s2d g) (c_s2d g) = 1 -> on_circle a ->
+  let o := add3 (c_tr g) (scal3 (cone_along g ang twopi 0) (c_axis g)) in
+  let s := sub3 (cone_src sqrt g a ang twopi (0, 0, 0)) o in
+  let r := sub3 (cone_refpoint sqrt g a ang twopi (0, 0, 0)) o in
+  dot3 s s = c_rs g * c_rs g /\ dot3 r r = c_rd g * c_rd g /\
+  scal3 (c_rs g) r = scal3 (- c_rd g) s /\
+  dot3 (sub3 r s) (sub3 r s) = (c_rs g + c_rd g) * (c_rs g + c_rd g).
+Proof. exact cone_circles. Qed.
+Print Assumptions conebeam_circles.
+
 (* ===================== 4. parallel beams: one ray direction ===================== *)
 (* surface normals are unit vectors orthogonal to the surface tangent(s) -- all five detector classes *)
 Theorem detector_normals :
@@ -208,6 +221,15 @@ Theorem parallel_factory_covers_volume : forall (ax bx ay by_ x y : R) (a : R * 
   lo <= par2d_coord par2d_default a (x, y) <= hi.
 Proof. exact par2d_factory_covers. Qed.
 Print Assumptions parallel_factory_covers_volume.
+
+(* 3-d volume, Parallel3dAxisGeometry with the default axes: detector coordinates (x cos + y sin, z) *)
+Theorem parallel_factory_covers_volume_3d : forall (ax bx ay by_ az bz x y z : R) (a : R * R),
+  ax <= x <= bx -> ay <= y <= by_ -> az <= z <= bz -> on_circle a ->
+  let '(lo, hi) := par_factory_det_range sqrt ax bx ay by_ in
+  let '(u, v) := par3a_coords par3a_default a (x, y, z) in
+  lo <= u <= hi /\ az <= v <= bz.
+Proof. exact par3a_factory_covers. Qed.
+Print Assumptions parallel_factory_covers_volume_3d.
 
 (* ---- cone_beam_geometry / helical_geometry: "its size is chosen such that the whole space is
    covered with lines" -- FALSE for the flat detector the factory builds.  Full statement:
@@ -395,7 +417,7 @@ Print Assumptions conebeam_frommatrix.
 
 (* =========== non-vacuity: the hypotheses above are met by objects the code builds =========== *)
 From Coq Require Import QArith.
-From Verif Require Import C19.Corr.
+From Verif Require Import Base.Check C19.Corr.
 (* the factory's default geometries are what the constructors return (executed at Q) *)
 Example default_geometries_are_constructed :
   (match mk_par2d Qsqrt (0, 1)%Q None (0, 0)%Q with
@@ -426,4 +448,14 @@ Example frommatrix_instance :
   (match par2d_frommatrix Qsqrt (((3 # 5), (-4 # 5)), ((4 # 5), (3 # 5)))%Q (1, 2)%Q with Some _ => true | None => false end) = true /\
   (match par3a_frommatrix Qsqrt ((1, 0, 0), (0, (3 # 5), (-4 # 5)), (0, (4 # 5), (3 # 5)))%Q (1, 2, 3)%Q with
    Some _ => true | None => false end) = true.
+Proof. split; vm_compute; reflexivity. Qed.
+(* the 3-d defaults used in the statements are what the constructors return (executed) *)
+Example default_geometries_3d_are_constructed :
+  (match mk_par3a Qsqrt (0, 0, 1)%Q None None (0, 0, 0)%Q with
+   | Some g => Qsclose 0 0 (f3 (pa_axis g) ++ f3 (pa_pos g) ++ f33 (det3_axes (pa_det g))) [0; 0; 1; 0; 1; 0; 1; 0; 0; 0; 0; 1]
+   | None => false end) = true /\
+  (match mk_cone Qsqrt 5 3 CFlat 2 1 (0, 0, 1)%Q None None (0, 0, 0)%Q with
+   | Some g => Qsclose 0 0 (f3 (c_axis g) ++ f3 (c_s2d g) ++ f33 (det3_axes (c_det g)) ++ [c_pitch g; c_off g])
+                           [0; 0; 1; 0; 1; 0; 1; 0; 0; 0; 0; 1; 2; 1]
+   | None => false end) = true.
 Proof. split; vm_compute; reflexivity. Qed.
